@@ -686,6 +686,9 @@ func (g *Gen) run() {
 		// the structural half of the clause holds: no statement of the function deletes from these maps
 		g.addObl("grow-only", "no-delete", "true", fn.Pos(), "no key is ever deleted from the maps in field(s) "+gl+" (every delete statement of the function was inspected)", nil)
 	}
+	if g.con.Opts["nonblocking"] != "" && g.safeCtr["neverblocks"] == 0 {
+		g.addObl("never-blocks", "none", "true", fn.Pos(), "no statement of the function can wait on a channel (every send, receive and select was inspected: all are cases of a select with default)", nil)
+	}
 	if g.retCount == 0 && !g.con.MayPanic {
 		// no return processed: nothing to prove about post
 	}
